@@ -83,6 +83,18 @@ func (n *simNet) lost() bool {
 	return n.r.Intn(100) < 10
 }
 
+// advertisement Data is sometimes held back for up to 3.9 s (within the 4 s Interest lifetime): meanwhile the sender
+// may announce a newer sequence number and that fetch may complete first — the late Data is then out of date
+func (n *simNet) dataDelay() time.Duration {
+	n.mu.Lock()
+	defer n.mu.Unlock()
+	if n.r.Intn(100) < 20 {
+		n.stats["data-held-back"]++
+		return time.Duration(300+n.r.Intn(3600)) * time.Millisecond
+	}
+	return time.Duration(1+n.r.Intn(15)) * time.Millisecond
+}
+
 func (n *simNet) delay() time.Duration {
 	n.mu.Lock()
 	defer n.mu.Unlock()
@@ -166,7 +178,7 @@ func (n *simNet) deliver(from, to int, interest *ndn.EncodedInterest, cb ndn.Exp
 			}
 			replied = true
 			go func() {
-				time.Sleep(n.delay())
+				time.Sleep(n.dataDelay())
 				if !n.linked(from, to) || n.lost() {
 					n.count("data-lost")
 					return // lost; the requester's timeout fires
